@@ -168,6 +168,18 @@ def prefix_table(ctx, rule):
     ctx.functions_analysed.add(fi.qualname)
     dicts = [n for n in walk_no_nested(fi.node) if isinstance(n, ast.Dict)]
     if not dicts:
+        # the table may have been moved to a constant of the class (Unit.PREFIXES) or of the module
+        used = {x.attr for x in ast.walk(fi.node) if isinstance(x, ast.Attribute)} | \
+            {x.id for x in ast.walk(fi.node) if isinstance(x, ast.Name)}
+        scopes = [ctx.model.classes['Unit'].node.body] + [m.tree.body for m in ctx.model.modules.values()
+                                                           if m.rel == 'pyplate/pyplate.py']
+        for body in scopes:
+            for st in body:
+                tg = st.targets[0] if isinstance(st, ast.Assign) and len(st.targets) == 1 else \
+                    st.target if isinstance(st, ast.AnnAssign) else None
+                if isinstance(tg, ast.Name) and tg.id in used and isinstance(getattr(st, 'value', None), ast.Dict):
+                    dicts.append(st.value)
+    if not dicts:
         raise AnalysisError('convert_prefix_to_multiplier: prefix table (dict literal) not found')
     table = {}
     for k, v in zip(dicts[0].keys, dicts[0].values):
